@@ -54,11 +54,32 @@ def canon_value(value_type, value):
 def tok(spec):
     """payload token of a node as the model sees it: plain value + 16 * number of supplemental semantic ids
     (+ 64 for a root that carries the other id)"""
-    return spec["pay"] + 16 * spec.get("sup", 0) + 64 * spec.get("rid", 0)
+    return spec["pay"] + 16 * spec.get("sup", 0) + 64 * spec.get("rid", 0) + 128 * spec.get("dl", 0)
 
 
 def qtok(q):
-    return q[2] + 8 * (q[3] if len(q) > 3 else 0)
+    """value + 8 * supplemental semantic ids + 32 * size of refers_to (extensions)"""
+    return q[2] + 8 * (q[3] if len(q) > 3 else 0) + 32 * (q[4] if len(q) > 4 else 0)
+
+
+def rt_refs(n):
+    model = _m()
+    return {model.ModelReference((model.Key(model.KeyTypes.SUBMODEL, f"urn:ref:{i}"),), model.Submodel) for i in range(n)}
+
+
+def rt_code(e):
+    r = getattr(e, "refers_to", None)
+    if r is None:
+        return 0
+    return len(r) if set(r) == rt_refs(len(r)) else -100
+
+
+def descr(spec):
+    model = _m()
+    d = {"en": f"d{spec['pay']}"}
+    if spec.get("dl"):
+        d["de"] = "zusatz"
+    return model.MultiLanguageTextType(d)
 
 
 def sup_refs(n):
@@ -99,12 +120,12 @@ def build(spec, objs, root=False):
             q = model.Qualifier(qk[2:], model.datatypes.Int, qv, **qkw)
             quals.append(q)
         else:
-            q = model.Extension(qk[2:], model.datatypes.Int, qv, **qkw)
+            q = model.Extension(qk[2:], model.datatypes.Int, qv, refers_to=rt_refs(qq[4] if len(qq) > 4 else 0), **qkw)
             exts.append(q)
         objs[qoid] = q
     kids = [build(k, objs) for k in spec["kids"]]
     sup = sup_refs(spec.get("sup", 0))
-    cat = model.MultiLanguageTextType({"en": f"d{spec['pay']}"})
+    cat = descr(spec)
     key = spec["key"]
     sem = sem_ref(spec.get("sem"))
     common_kw = dict(qualifier=quals, extension=exts, semantic_id=sem, supplemental_semantic_id=sup)
@@ -120,7 +141,7 @@ def build(spec, objs, root=False):
         else:
             o = model.AnnotatedRelationshipElement(key, ref, ref, annotation=kids, description=cat, **common_kw)
     elif cls == 7:
-        o = model.Range(key, model.datatypes.Int, description=cat, **common_kw)
+        o = model.Range(key, model.datatypes.String if spec.get("vt") else model.datatypes.Int, description=cat, **common_kw)
     elif cls == 1:
         o = model.SubmodelElementCollection(key, kids, description=cat, **common_kw)
     elif cls == 2:
@@ -130,10 +151,14 @@ def build(spec, objs, root=False):
         # not aligned with their positions any more (1: first child inserted at the front afterwards,
         # 2: built with a leading dummy that is deleted again, 3: first child popped and re-inserted at the front)
         lp = spec.get("lp", 0) if kids else 0
-        first = kids[1:] if lp == 1 else ([model.Property(None, model.datatypes.Int, 0, semantic_id=kids[0].semantic_id)] + kids
-                                           if lp == 2 else kids)
-        o = model.SubmodelElementList(key, model.Property, first, value_type_list_element=model.datatypes.Int,
-                                      description=cat, **common_kw)
+        lt = spec.get("lt", 0)       # 0: Property / xs:int, 1: Range / xs:int, 2: Range / xs:string
+        lcls = model.Property if lt == 0 else model.Range
+        lvt = model.datatypes.String if lt == 2 else model.datatypes.Int
+        dummy = (model.Property(None, lvt, 0, semantic_id=kids[0].semantic_id) if lt == 0
+                 else model.Range(None, lvt, semantic_id=kids[0].semantic_id)) if lp == 2 else None
+        first = kids[1:] if lp == 1 else ([dummy] + kids if lp == 2 else kids)
+        o = model.SubmodelElementList(key, lcls, first, value_type_list_element=lvt,
+                                      semantic_id_list_element=sem_ref(spec.get("ls")), description=cat, **common_kw)
         if lp == 1:
             o.value.insert(0, kids[0])
         elif lp == 2:
@@ -182,6 +207,11 @@ def kid_sets(o):
 def payload(o):
     model = _m()
     extra = 16 * sup_code(o) + (64 if getattr(o, "id", None) == "urn:c12:sm:v2" else 0)
+    try:
+        if not isinstance(o, model.Property) and "de" in o.description:
+            extra += 128
+    except Exception:
+        pass
     if isinstance(o, model.Property):
         got = canon_value(o.value_type, o.value)
         for i, (vt, val) in enumerate(prop_values()):
@@ -217,7 +247,7 @@ def encode(o, objs, depth=0, rows=None):
            payload(o), src_code(o)]
     for qk, q in sorted(quals, key=lambda t: QKEYS.index(t[0]) if t[0] in QKEYS else 99):
         row += [QKEYS.index(qk) if qk in QKEYS else -1, oid_of(objs, q),
-                q.value + 8 * sup_code(q) if isinstance(q.value, int) else -1]
+                q.value + 8 * sup_code(q) + 32 * rt_code(q) if isinstance(q.value, int) else -1]
     rows.append(row)
     for S in kid_sets(o):
         for k in S:
@@ -239,6 +269,16 @@ def check_equal(o, spec, path, bad, root=True, in_list=False, check_source=True)
     got_sem = None if got_sem is None else int(got_sem.key[0].value.rsplit(":", 1)[1])
     if got_sem != want_sem:
         bad.append(("attr", f"{path}: semantic_id {got_sem} != {want_sem}"))
+    if spec["cls"] == 3:
+        lt = spec.get("lt", 0)
+        want = ("Property" if lt == 0 else "Range", _m().datatypes.String.__name__ if lt == 2 else "Int", spec.get("ls"))
+        ls = o.semantic_id_list_element
+        got = (o.type_value_list_element.__name__, getattr(o.value_type_list_element, "__name__", None),
+               None if ls is None else int(ls.key[0].value.rsplit(":", 1)[1]))
+        if got != want:
+            bad.append(("list-type", f"{path}: list element type / value type / semantic id {got}, the copy has {want}"))
+    if spec["cls"] == 7 and (o.value_type is _m().datatypes.String) != bool(spec.get("vt")):
+        bad.append(("attr", f"{path}: value_type {o.value_type.__name__} differs from the copy's"))
     if cls_code(o) == 9 and o.id != root_id(spec):
         bad.append(("attr", f"{path}: id {o.id!r} != {root_id(spec)!r}"))
     if sup_code(o) != spec.get("sup", 0):
@@ -249,14 +289,14 @@ def check_equal(o, spec, path, bad, root=True, in_list=False, check_source=True)
     if check_source and not root and src_code(o) != spec["src"]:
         bad.append(("child-source", f"{path}: source of an embedded object not taken from the copy"))
     have = {("q:" + q.type): q.value + 8 * sup_code(q) for q in getattr(o, "qualifier", [])}
-    have.update({("x:" + e.name): e.value + 8 * sup_code(e) for e in o.extension})
+    have.update({("x:" + e.name): e.value + 8 * sup_code(e) + 32 * rt_code(e) for e in o.extension})
     want = {q[0]: qtok(q) for q in spec["quals"]}
     if set(have) != set(want):
         bad.append(("qualifier-set", f"{path}: qualifiers/extensions {sorted(have)} != {sorted(want)}"))
     else:
         for k in want:
             if have[k] != want[k]:
-                bad.append(("qualifier-value", f"{path}: value / supplemental semantic ids of {k}: token {have[k]}, the copy has {want[k]}"))
+                bad.append(("qualifier-value", f"{path}: value / supplemental semantic ids / refers_to of {k}: token {have[k]}, the copy has {want[k]}"))
     sets = kid_sets(o)
     if spec["cls"] == 3:
         got = list(sets[0]) if sets else []
@@ -389,6 +429,45 @@ def run_http(case):
     return bad
 
 
+def run_embedded(case):
+    """the updated object is itself a child of a namespace that is not part of the update (a holder Submodel with a
+    sibling 'c'); the copy may carry another idShort.  Returns failures [(class, msg)]."""
+    model = _m()
+    objs = {}
+    live = build(case["live"], objs, True)
+    holder = model.Submodel("urn:c12:holder", [live, model.Property("c", model.datatypes.Int)])
+    new = load_copy(case["new"], objs) if case.get("via") == "json" else build(case["new"], objs, True)
+    bad = []
+    try:
+        live.update_from(new, update_source=bool(case["us"]))
+    except Exception as e:
+        return [("raised-" + type(e).__name__, f"update_from raised {type(e).__name__}: {e}")]
+    check_equal(live, case["new"], "", bad)
+    check_identity(live, case["live"], case["new"], objs, "", bad)
+    try:
+        check_c01(holder, "holder", bad)
+        if holder.get_referable(case["new"]["key"]) is not live:
+            bad.append(("c01", "the holder's lookup by the new idShort does not return the updated object"))
+        if case["new"]["key"] != case["live"]["key"]:
+            try:
+                holder.get_referable(case["live"]["key"])
+                bad.append(("c01", "the holder still resolves the old idShort"))
+            except KeyError:
+                pass
+    except Exception as e:
+        bad.append(("c01", f"holder: public query raised {type(e).__name__}: {e}"))
+    return bad
+
+
+def gen_embedded_case(rng):
+    g = Gen(rng, False)
+    live = g.node(0, "a", cls=1)
+    new = g.edit(live)
+    new["key"] = rng.choice(["a", "b", "d", "A"])
+    new.pop("rid", None)
+    return {"live": live, "new": new, "us": rng.randrange(2), "via": rng.choice(["ctor", "json"])}
+
+
 def run_sdk(case):
     """case = {live, new, us, via}.  Returns (rows or None, failures [(class, msg)])."""
     objs = {}
@@ -449,7 +528,21 @@ class Gen:
     def quals(self):
         r = self.rng
         ks = [k for k in QKEYS if r.random() < 0.3]
-        return [[k, self.oid(), r.randrange(3), r.choice([0, 0, 0, 1, 2])] for k in ks]
+        return [[k, self.oid(), r.randrange(3), r.choice([0, 0, 0, 1, 2]),
+                 r.choice([0, 0, 1, 2]) if k.startswith("x:") else 0] for k in ks]
+
+    def list_kid(self, depth, lt):
+        """a child that a list of type lt (0 Property/int, 1 Range/int, 2 Range/string) accepts"""
+        k = self.node(depth + 1, None, cls=0 if lt == 0 else 7)
+        return k
+
+    def conform(self, kids, lt, ls, sem):
+        for k in kids:
+            k["sem"], k["sup"] = (sem if ls is None else self.rng.choice([ls, None])), 0
+            if lt == 0 and k["pay"] not in (0, 2, 6):
+                k["pay"] = self.rng.choice([0, 2, 6])
+            if lt != 0:
+                k["vt"] = 1 if lt == 2 else 0
 
     def newsup(self, old):
         """supplemental semantic ids of the copy: unchanged / all removed / anything"""
@@ -465,6 +558,8 @@ class Gen:
              "src": r.choice([0, 0, 1, 2]), "quals": self.quals(), "kids": []}
         n["sup"] = r.choice([0, 0, 0, 1, 2])
         n["sem"] = 7 if n["sup"] else None
+        if cls != 0:
+            n["dl"] = r.choice([0, 0, 1])
         if slot is not None:
             n["slot"] = slot
         if cls in (1, 9, 4):
@@ -475,12 +570,9 @@ class Gen:
             for k in [k for k in KEYS if r.random() < 0.4]:
                 n["kids"].append(self.node(depth + 1, k, cls=r.choice([0, 0, 2, 7])))   # annotations: DataElements
         elif cls == 3:
-            sem = r.choice([None, 0, 1])
-            for _ in range(r.choice([0, 1, 2, 3])):
-                k = self.node(depth + 1, None, cls=0)
-                k["sem"], k["sup"] = sem, 0
-                k["pay"] = r.choice([0, 2, 6])      # the list is typed xs:int
-                n["kids"].append(k)
+            n["lt"], n["ls"] = r.choice([0, 0, 1, 2]), r.choice([None, None, 0, 1])
+            n["kids"] = [self.list_kid(depth, n["lt"]) for _ in range(r.choice([0, 1, 2, 3]))]
+            self.conform(n["kids"], n["lt"], n["ls"], r.choice([None, 0, 1]))
             n["lp"] = r.choice([0, 1, 2, 3])        # local edits before the update (generated ids vs positions)
         return n
 
@@ -498,6 +590,8 @@ class Gen:
              "src": n["src"] if r.random() < 0.6 else r.choice([0, 1, 2]), "quals": [], "kids": []}
         m["sup"] = self.newsup(n.get("sup", 0))
         m["sem"] = 7 if m["sup"] else None
+        if n["cls"] != 0:
+            m["dl"] = min(1, self.newsup(n.get("dl", 0)))  # description languages: unchanged / shrunk / anything
         if depth == 0 and r.random() < 0.15:
             m["rid"] = 1                                   # the copy carries another id
         if "slot" in n:
@@ -507,23 +601,31 @@ class Gen:
             x = r.random()
             if x < 0.15:
                 continue
-            m["quals"].append([qk, self.oid(), qv if x < 0.6 else r.randrange(3), self.newsup(qs)])
+            qr = qq[4] if len(qq) > 4 else 0
+            m["quals"].append([qk, self.oid(), qv if x < 0.6 else r.randrange(3), self.newsup(qs),
+                               self.newsup(qr) if qk.startswith("x:") else 0])
         for k in QKEYS:
             if k not in [q[0] for q in m["quals"]] and r.random() < 0.1:
-                m["quals"].append([k, self.oid(), r.randrange(3), r.choice([0, 0, 1])])
+                m["quals"].append([k, self.oid(), r.randrange(3), r.choice([0, 0, 1]),
+                                   r.choice([0, 1]) if k.startswith("x:") else 0])
         if n["cls"] == 3:
-            kids = list(n["kids"])
-            r.shuffle(kids)
-            kids = kids[:r.randint(0, len(kids))]
-            for k in kids:
-                m["kids"].append(self.edit(k, depth + 1))
-            for _ in range(r.choice([0, 0, 1])):
-                m["kids"].append(self.node(depth + 1, None, cls=0))
+            # the list's own type attributes may change together with its items
+            lt, ls = n.get("lt", 0), n.get("ls")
+            m["lt"] = lt if r.random() < 0.7 else r.choice([t for t in (0, 1, 2) if t != lt])
+            m["ls"] = ls if r.random() < 0.7 else r.choice([None, 0, 1])
+            m["lp"] = 0
+            if m["lt"] == lt or (lt != 0 and m["lt"] != 0):
+                kids = list(n["kids"])
+                r.shuffle(kids)
+                kids = kids[:r.randint(0, len(kids))]
+                for k in kids:
+                    m["kids"].append(self.edit(k, depth + 1))
+                for _ in range(r.choice([0, 0, 1])):
+                    m["kids"].append(self.list_kid(depth, m["lt"]))
+            else:
+                m["kids"] = [self.list_kid(depth, m["lt"]) for _ in range(r.choice([1, 1, 2, 3]))]
             sem = r.choice([None, 0, 1]) if r.random() < 0.5 else (n["kids"][0].get("sem") if n["kids"] else None)
-            for k in m["kids"]:
-                k["sem"], k["sup"] = sem, 0
-                if k["pay"] not in (0, 2, 6):
-                    k["pay"] = r.choice([0, 2, 6])
+            self.conform(m["kids"], m["lt"], m["ls"], sem)
             return m
         for k in n["kids"]:
             x = r.random()
@@ -665,6 +767,22 @@ def run(chk):
             tcases.append(case)
         if len(chk.samples) < 3 and nl >= 5 and modelled:
             chk.samples.append({"case": case, "sdk_rows": rows})
+    # the updated object is a child of a namespace outside the update (idShort of the root may change)
+    for _ in range(300 if chk.tier == "quick" else 3000):
+        case = gen_embedded_case(rng)
+        chk.count("embedded_root_cases")
+        chk.seen(case, nontrivial=True)
+        try:
+            bad = run_embedded(case)
+        except Exception as e:
+            bad = [("harness", f"{type(e).__name__}: {e}")]
+        for cls in sorted({b[0] for b in bad}):
+            sig = f"C12:embedded:{cls}"
+            if sig not in reported:
+                reported.add(sig)
+                small = shrink(case, lambda c2: cls in [b[0] for b in run_embedded(c2)])
+                msg = [b[1] for b in run_embedded(small) if b[0] == cls]
+                chk.fail(sig, msg[0] if msg else cls, {"case": small, "how": "tools/c12.py run_embedded(case)"})
     # the same pairs through a caller: HTTP PUT /submodels/{id} while the application holds the live objects
     nhttp = 150 if chk.tier == "quick" else 1500
     for case in [c for c in cases if not has_extra(c["live"]) and not has_extra(c["new"])][:nhttp]:
@@ -723,8 +841,8 @@ def run(chk):
 def replay(path):
     r = json.load(open(path))
     rp = r.get("replay") or {}
-    if "case" in rp and "run_http" in rp.get("how", ""):
-        bad = run_http(rp["case"])
+    if "case" in rp and ("run_http" in rp.get("how", "") or "run_embedded" in rp.get("how", "")):
+        bad = (run_http if "run_http" in rp["how"] else run_embedded)(rp["case"])
         for b in bad[:8]:
             print("oracle:", b)
         if not bad:
